@@ -307,8 +307,9 @@ def mode_term(mode):
     return (f"(mkMode {f('toc')} {f('render')} {f('save')} {f('nodes')} {f('addr')} {f('format')} {f('metrics')})")
 
 
-def cases_file(results, mode):
-    """results: impl_card trace outputs.  One Coq file comparing show_case with the implementation's text."""
+def cases_file(results, mode, clip=None):
+    """results: impl_card trace outputs.  One Coq file comparing show_case with the implementation's text.
+    clip=n: very long observations; report only a window of n code points around the first difference."""
     em = Emitter()
     rows = []
     for r in results:
@@ -316,7 +317,8 @@ def cases_file(results, mode):
         rows.append(f"(({em.oracle(r['oracle'])}, {ops}), {em.ints(r['expected'])})")
     body = ["From Skv Require Import PyStr Json Corr Show.", "Open Scope N_scope.", em.header(),
             "Definition cases : list ((oracle_table * list op) * pstr) := " + em.lst(rows, "((oracle_table * list op) * pstr)") + ".",
-            f"Eval vm_compute in report (show_case {mode_term(mode)}) cases."]
+            f"Eval vm_compute in report (show_case {mode_term(mode)}) cases." if not clip else
+            f"Eval vm_compute in report_clipped {clip} (show_case {mode_term(mode)}) cases."]
     return "\n".join(body) + "\n"
 
 
@@ -363,9 +365,10 @@ def steps(ints):
     return res
 
 
-def correspond(R, name, seqs, mode, shards=None):
+def correspond(R, name, seqs, mode, shards=None, clip=None):
     """Run the sequences on the implementation, compare with the model in Coq.
-    Returns (results, bad) with bad = [(case index, step, impl text, model text)]."""
+    Returns (results, bad) with bad = [(case index, step, impl text, model text)]
+    (clip=n: both texts are the n code points around the first difference, prefixed with its offset in the step)."""
     p = C.run_impl("impl_card.py", input_obj={"what": "trace", "mode": mode, "build": str(R.gen), "cases": seqs},
                    timeout=1500)
     if p.returncode != 0:
@@ -379,7 +382,7 @@ def correspond(R, name, seqs, mode, shards=None):
     files, spans = [], []
     for i in range(0, len(results), size):
         f = R.gen / f"Cases_{name}_{i // size}.v"
-        f.write_text(cases_file(results[i:i + size], mode))
+        f.write_text(cases_file(results[i:i + size], mode, clip))
         files.append(f)
         spans.append(i)
     R.notes["shards"] = R.notes.get("shards", 0) + len(files)
@@ -398,6 +401,10 @@ def correspond(R, name, seqs, mode, shards=None):
         for idx, step, got in rep:
             exp = steps(results[base + idx]["expected"])
             a = exp[step - 1] if 1 <= step <= len(exp) else []
+            if clip and got:
+                off, got = got[0], got[1:]
+                bad.append((base + idx, step - 1, f"[@{off}] " + readable(a[off:off + clip]), f"[@{off}] " + readable(got)))
+                continue
             bad.append((base + idx, step - 1, readable(a), readable(got)))
     return results, bad
 
